@@ -4,7 +4,7 @@
    the three receivers consume the same bytes. *)
 From Coq Require Import List NArith ZArith Bool.
 From Cedar Require Import Lib.Bytes Model.Msg Model.Privacy Model.AdWire Model.Literal Proofs.C08 Proofs.C08Wire.
-From Cedar Require Import Proofs.C14Reader Proofs.C14Writer Proofs.C14Roundtrip Proofs.C08Round.
+From Cedar Require Import Proofs.C14Reader Proofs.C14Writer Proofs.C14Roundtrip Proofs.C08Round Proofs.C08Bridge.
 Import ListNotations.
 
 (* For EVERY value text (any bytes), whatever strconv says about the range of a real:
@@ -151,3 +151,39 @@ Theorem C08_attrs_roundtrip_own : forall (c : config) (key enc : bool) (a : ad),
   = map (fun v => MOk (val_of v)) (ad_vals c a).
 Proof. exact attrs_roundtrip_own. Qed.
 Print Assumptions C08_attrs_roundtrip_own.
+
+(* C08_receiver_reconstructs: on a plaintext or an encrypting stream, for EVERY ad, option set
+   (types not suppressed), whitelist and peer version: GetClassAdRaw applied to the very frames
+   the sender produced (single- or multi-frame, whatever the sizes) returns exactly the rendered
+   text of every attribute that passes the privacy/whitelist filter (ServerTime first if
+   requested), in order and unchanged, and the sender's two type names.  By
+   C08_same_bytes_get_raw GetClassAd sees the same strings, and C08_shortcut_sound says what value
+   its decoder gives each of them.  Hypotheses: items are NUL-free (on an encrypted stream also
+   not starting with 0xAD and shorter than 2^31) and the type names are type names (isTypeName) or
+   empty: true of rendered ClassAd expressions and of real type names. *)
+Theorem C08_receiver_reconstructs : forall (c : config) (key enc : bool) (a : ad),
+  secret_is_noop key enc = true ->
+  opt_no_types (c_opts c) = false ->
+  Forall (valid_str enc) (ad_items c a) ->
+  type_ok (ad_mytype a) -> type_ok (ad_targettype a) ->
+  (Z.of_nat (length (ad_attrs a)) < 2 ^ 62)%Z ->
+  exists t1,
+    get_ad_raw (treader_of key enc (s_frames (s_finish (put_ad c (sstate_init key enc) a)))) =
+      (t1, MOk ((if opt_server_time (c_opts c) then [server_time_expr] else []) ++
+                map expr_text (attrs_to_send c (ad_attrs a)), ad_mytype a, ad_targettype a)).
+Proof. exact raw_roundtrip. Qed.
+Print Assumptions C08_receiver_reconstructs.
+
+(* the hypotheses hold for a realistic ad on an encrypting stream *)
+Example C08_reconstructs_nonvacuous :
+  let c := {| c_opts := 4; c_whitelist := []; c_enc_attrs := []; c_peer := None |} in
+  let a := {| ad_attrs := [([x4e], [x22; x61; x22]); ([x43; x6c; x61; x69; x6d; x49; x64], [x22; x73; x22]); ([x43], [x34])];
+              ad_mytype := [x4d]; ad_targettype := [] |} in
+  secret_is_noop true true = true /\ opt_no_types (c_opts c) = false /\
+  Forall (valid_str true) (ad_items c a) /\ type_ok (ad_mytype a) /\ type_ok (ad_targettype a) /\
+  length (ad_items c a) = 5%nat.
+Proof.
+  cbv zeta. split; [reflexivity|]. split; [reflexivity|]. split.
+  - vm_compute. repeat constructor; try discriminate; intros _; split; try discriminate; reflexivity.
+  - split; [right; reflexivity|]. split; [left; reflexivity|reflexivity].
+Qed.
